@@ -9,18 +9,18 @@ from vlib import *
 # property whose check owns them (attribution, not suppression: some check owns every category).
 STRUCT = {"kind", "block", "frame"}
 RELEVANT = {
-    "C01": STRUCT | {"count", "value", "ident", "poison", "baddrop", "drops", "frees", "drain", "stray", "out"},
+    "C01": STRUCT | {"count", "value", "ident", "poison", "baddrop", "drops", "frees", "drain", "stray", "out", "overrun"},
     "C03": STRUCT | {"verdict", "count", "panicked", "seen"},
     "C04": STRUCT | {"count"},
-    "C05": {"layout", "frees", "alloc", "align", "size", "leak", "drops", "panicked", "baddrop"},
-    "C06": STRUCT | {"value", "ident", "contents", "drops", "frees", "drain", "stray", "baddrop", "poison", "panicked", "count"},
-    "C07": STRUCT | {"baddrop", "drops", "frees", "drain", "poison", "count", "panicked", "stray", "value", "leak", "exit"},
+    "C05": {"layout", "frees", "alloc", "align", "size", "leak", "drops", "panicked", "baddrop", "overrun"},
+    "C06": STRUCT | {"value", "ident", "contents", "drops", "frees", "drain", "stray", "baddrop", "poison", "panicked", "count", "overrun"},
+    "C07": STRUCT | {"baddrop", "drops", "frees", "drain", "poison", "count", "panicked", "stray", "value", "leak", "exit", "overrun"},
     "C08": STRUCT | {"verdict", "ncl", "seen", "value", "ident", "count", "stray", "drops", "frees", "panicked", "drain"},
     "C09": STRUCT | {"verdict", "out", "drops", "frees", "count", "ncl", "seen", "drain", "stray", "baddrop", "panicked"},
-    "C10": STRUCT | {"count", "value", "ident", "thin", "addr", "heap", "panicked", "drops", "frees", "drain", "baddrop", "poison", "stray", "contents"},
+    "C10": STRUCT | {"count", "value", "ident", "thin", "addr", "heap", "panicked", "drops", "frees", "drain", "baddrop", "poison", "stray", "contents", "overrun"},
     "C11": STRUCT | {"heap", "addr", "count", "value", "width", "bits"},
     "C12": STRUCT | {"union", "count", "layout", "drops", "frees", "baddrop", "drain", "value", "ident", "poison", "width"},
-    "C15": STRUCT | {"baddrop", "drops", "frees", "drain", "poison", "count", "value", "ident", "panicked", "stray", "contents", "verdict"},
+    "C15": STRUCT | {"baddrop", "drops", "frees", "drain", "poison", "count", "value", "ident", "panicked", "stray", "contents", "verdict", "overrun"},
     "C16": {"abort", "count"},
     "C17": {"serde", "count", "stray", "drain", "frees", "drops"},
 }
@@ -45,7 +45,7 @@ def split_errors(prop, errors):
 
 
 # ---------------------------------------------------------------- sized-family op groups
-BASE = ["New", "Clone", "CloneArc", "Drop"]
+BASE = ["New", "Clone", "CloneArc", "CloneFrom", "Drop"]
 CONV = ["IntoRaw", "FromRaw", "IntoPtr", "FromPtr", "IntoOff", "FromOff", "FromFirst", "FromSecond",
         "Shareable", "Unsize", "IntoRawDyn", "FromRawDyn", "CastDyn", "UnsizeUnq", "ShareableDyn", "UnsizeBor"]
 CONV_CORE = ["IntoRaw", "FromRaw", "IntoOff", "FromOff", "FromFirst", "FromSecond", "Shareable"]
